@@ -91,7 +91,7 @@ def known_findings():
 
 
 # ---------------------------------------------------------------------------------
-def run_verus_unit(u, tier):
+def _run_verus_unit(u, tier):
     """returns a unit result dict"""
     res = {'unit': u['name'], 'backend': 'verus', 'undecided': None, 'obligations': [], 'failures': [],
            'functions': [], 'trusted': [], 'rewrites': [], 'extracted': [], 'dropped': [], 'cmds': [],
@@ -194,6 +194,35 @@ def run_verus_unit(u, tier):
         from . import replay
         replay.run_explorations(res, u['thorough_explorations'], ROOT, BUILD)
     res['wall_s'] = time.time() - t0
+    return res
+
+
+def run_verus_unit(u, tier):
+    """runs the unit; if the proof side is UNDECIDED (lost anchor, the restructured code no
+    longer type-checks against the spliced contracts, solver limit) the unit's registered
+    witness programs are run anyway as a bounded replay on the real code: a program that finds
+    a failing input turns 'undecided' into a VIOLATION with that input; if none does, the
+    verdict stays undecided (a bounded replay never yields exit 0 for a proof-level unit)."""
+    res = _run_verus_unit(u, tier)
+    if res.get('undecided') and u.get('witnesses'):
+        from . import replay
+        res['fallback_replay'] = []
+        seen = []
+        for w in u['witnesses']:
+            if w['cmd'] in seen:
+                continue
+            seen.append(w['cmd'])
+            props = w.get('props', u.get('serves', []))
+            fake = {'obligation': '%s::undecided::bounded_replay::%s' % (u['name'], '_'.join(w['cmd'][:2])),
+                    'props': props, 'message': 'proof undecided (%s); bounded replay on the real code' % res['undecided'][:160],
+                    'rendered': res['undecided'], 'label': None, 'block': None, 'serves': props}
+            r2 = dict(res)
+            r2['witnesses'] = [dict(w, match='.*')]
+            replay.witness_search(r2, fake, ROOT, BUILD)
+            res['fallback_replay'].append({'cmd': w['cmd'], 'tried': fake.get('witness_search')})
+            if fake.get('concrete_input'):
+                res['failures'] = list(res.get('failures', [])) + [fake]
+        res['witnesses'] = u['witnesses']
     return res
 
 
